@@ -66,6 +66,16 @@ theorem ctxTimeout_pos_iff [FGrace] (t : Int) : 0 < ctxTimeout t ↔ 200000000 <
 theorem ctxTimeout_ge [FGrace] (t : Int) (h : 0 ≤ t) : 10 * ctxTimeout t ≥ min (10 * t - 2000000000) (9 * t) := by
   rw [ctxTimeout_eq, grace_eq, Int.tdiv_eq_ediv_of_nonneg h]; split <;> omega
 
+/-- one context per RunT call, released by the finisher that removes the root -/
+class FCtxOnce : Prop where
+  once : Gen.TsLifeDl.ctxCreatedOncePerRun = true
+  released : Gen.TsLifeDl.cancelAfterRootRemove = true
+
+theorem scriptCtxExpiry_eq [FGrace] [F : FCtxOnce] (call start timeout : Int) :
+    scriptCtxExpiry call start timeout = call + timeout - 2 * grace timeout := by
+  simp only [scriptCtxExpiry, F.once, if_true, ctxTimeout_eq]
+  omega
+
 /-! ### §7 cmdExec -/
 
 class FExec : Prop where
